@@ -203,13 +203,14 @@ func init() {
 func init() {
 	register(&Property{
 		ID: "C22",
-		Explanation: "Decides structural necessary conditions of 'the grammar compiler never crashes and reports in-range diagnostics': EXIT: the process-exit/panic sites reachable (call graph from compiler.Compile, restricted to packages the compiler links) equal an audited table, each line with the invariant that keeps grammar text away from it; a new site fails as unaudited. STAGEGATE: each pipeline stage of compileParser runs only if the previous one returned no error. " +
+		Explanation: "Decides structural necessary conditions of 'the grammar compiler never crashes and reports in-range diagnostics': EXIT: the process-exit/panic sites reachable (call graph from compiler.Compile, restricted to packages the compiler links) equal an audited table, each line with the invariant that keeps grammar text away from it; a new site fails as unaudited. STAGEGATE: each pipeline stage of compileParser runs only if the previous one returned no error. ASSERTTY: every unchecked type assertion on an option value asserts the type of that option's default. " +
 			"CYCLE: no unbounded recursion over cyclic token sets. ESCAPE: validation data is not kept in a recycled scratch buffer. CURSOR: the grammar lexer (parsers/tm) never reads l.source past its end and never advances the cursor unguarded. UNITS(bytes): no rune-counting value flows into SourceRange offsets/columns. GUARD(optimize-la), DTX(rune-fold): the obligations cited by audited exit sites. " +
 			"Not decided: index-out-of-range and nil dereference on malformed models in general, line/column consistency beyond the unit rule.",
-		Rules: []string{"EXIT", "STAGEGATE", "CYCLE", "ESCAPE", "CURSOR", "UNITS(bytes)", "GUARD(optimize-la)", "DTX(rune-fold)"},
+		Rules: []string{"EXIT", "STAGEGATE", "ASSERTTY", "CYCLE", "ESCAPE", "CURSOR", "UNITS(bytes)", "GUARD(optimize-la)", "DTX(rune-fold)"},
 		Run: func(c *Ctx) {
 			ruleEXIT(c)
 			ruleSTAGEGATE(c)
+			ruleASSERTTY(c)
 			ruleCYCLE(c)
 			ruleESCAPE(c, map[string]bool{"syntax": true, "compiler": true, "lalr": true, "lex": true})
 			ruleCURSOR(c)
@@ -235,12 +236,13 @@ func init() {
 func init() {
 	register(&Property{
 		ID: "C01",
-		Explanation: "Decides structural necessary conditions of 'generated parsers accept exactly the language' across table writers (lalr/) and readers (the five committed generated parsers and js's hand-written parse loop): CODEC(parser): every read of the packed table is guarded by 0 <= pos < tmTableLen, -2-action is used as a state only for action < -1, rule tables are indexed only with action >= 0. ENTRY: the i-th exported Parse* starts in state i with a final state that is not an entry state. " +
+		Explanation: "Decides structural necessary conditions of 'generated parsers accept exactly the language' across table writers (lalr/) and readers (the five committed generated parsers and js's hand-written parse loop): CODEC(parser): every read of the packed table is guarded by 0 <= pos < tmTableLen, -2-action is used as a state only for action < -1, rule tables are indexed only with action >= 0. SIBLING(gotoState): the generated default-encoding gotoState has the same comparisons, index arithmetic and returns as lalr.(*DefaultEnc).gotoState. ENTRY: the i-th exported Parse* starts in state i with a final state that is not an entry state. " +
 			"GUARD(markerfree): RuleLen counts only non-marker symbols. CODEC(optimize), GUARD(usedBase), GUARD(dedupe), GUARD(entry), FIELDCOV(minimize), MUSTPASS(compile-order), MUSTPASS(nonassoc-rewrite): the writers keep the encodings consistent. " +
 			"Not decided: correctness of the LR(0)/LALR construction and of the shift/reduce loop as algorithms; the error-location clause.",
-		Rules: []string{"CODEC(parser)", "ENTRY", "GUARD(markerfree)", "CODEC(optimize)", "GUARD(usedBase)", "GUARD(dedupe)", "GUARD(entry)", "FIELDCOV(minimize)", "MUSTPASS(compile-order)", "MUSTPASS(nonassoc-rewrite)"},
+		Rules: []string{"CODEC(parser)", "SIBLING(gotoState)", "ENTRY", "GUARD(markerfree)", "CODEC(optimize)", "GUARD(usedBase)", "GUARD(dedupe)", "GUARD(entry)", "FIELDCOV(minimize)", "MUSTPASS(compile-order)", "MUSTPASS(nonassoc-rewrite)"},
 		Run: func(c *Ctx) {
 			ruleTABLEIDX(c)
+			ruleGOTOSIBLING(c)
 			ruleENTRY(c)
 			ruleMARKERFREE(c)
 			ruleOPTCODEC(c)
